@@ -2,6 +2,7 @@ package main
 
 import (
 	"bytes"
+	"errors"
 	"crypto/ed25519"
 	"encoding/json"
 	"fmt"
@@ -550,15 +551,19 @@ func genReg(r *hx.Rng, c *Case, g, n int) {
 
 type inboxInst struct {
 	svc  *messagepickup.Service
+	ct   *ctl
 	mu   sync.Mutex
 	sent map[string]map[string]interface{}
+	fail map[string]bool
 	seq  []int
 }
+
+var errInjectedSend = errors.New("verif: injected send failure") //nolint:gochecknoglobals
 
 func didName(d int) string { return fmt.Sprintf("did:example:r%d", d) }
 
 func newInboxInst(_ Case, ct *ctl) (Inst, error) {
-	w := &inboxInst{sent: map[string]map[string]interface{}{}, seq: make([]int, 16)}
+	w := &inboxInst{ct: ct, sent: map[string]map[string]interface{}{}, fail: map[string]bool{}, seq: make([]int, 16)}
 
 	out := &mockdispatcher.MockOutbound{ValidateSendToDID: func(msg interface{}, myDID, theirDID string) error {
 		b, _ := json.Marshal(msg)
@@ -569,7 +574,15 @@ func newInboxInst(_ Case, ct *ctl) (Inst, error) {
 
 		w.mu.Lock()
 		w.sent[id] = m
+		fail := w.fail[id]
 		w.mu.Unlock()
+
+		// forced overlap: the operation is parked INSIDE its outbound send (park point -2)
+		ct.parkSend()
+
+		if fail {
+			return errInjectedSend
+		}
 
 		return nil
 	}}
@@ -609,6 +622,12 @@ func (w *inboxInst) Exec(g int, o *Op) (out Out) {
 	id := fmt.Sprintf("req-%d-%d", g, w.seq[g])
 	m := map[string]interface{}{"@id": id, "~thread": map[string]interface{}{"thid": id}}
 
+	if o.Kind == "pickupf" {
+		w.mu.Lock()
+		w.fail[id] = true
+		w.mu.Unlock()
+	}
+
 	if o.Kind == "status" {
 		m["@type"] = messagepickup.StatusRequestMsgType
 	} else {
@@ -623,13 +642,15 @@ func (w *inboxInst) Exec(g int, o *Op) (out Out) {
 		return Out{Kind: "err", Err: err.Error()}
 	}
 
-	if err := w.svc.VerifHandleSync(msg, "did:example:mediator", didName(o.U)); err != nil {
-		return Out{Kind: "err", Err: err.Error()}
-	}
+	herr := w.svc.VerifHandleSync(msg, "did:example:mediator", didName(o.U))
 
 	w.mu.Lock()
 	s := w.sent[id]
 	w.mu.Unlock()
+
+	if herr != nil && (s == nil || !errors.Is(herr, errInjectedSend)) {
+		return Out{Kind: "err", Err: herr.Error()}
+	}
 
 	if s == nil {
 		return Out{Kind: "err", Err: "nothing was handed to the dispatcher"}
@@ -657,6 +678,10 @@ func (w *inboxInst) Exec(g int, o *Op) (out Out) {
 			}
 
 			ms = append(ms, n)
+		}
+
+		if herr != nil {
+			return Out{Kind: "batchfail", Vs: ms}
 		}
 
 		return Out{Kind: "batch", Vs: ms}
@@ -711,6 +736,17 @@ func (inboxModel) Step(st State, o Op, got Out) (State, bool) {
 		}
 
 		return s, got.Kind == "count" && got.V == len(cur)
+	case "pickupf":
+		if !present {
+			return s, got.Kind == "err"
+		}
+
+		n := o.N
+		if n > len(cur) {
+			n = len(cur)
+		}
+
+		return s, got.Kind == "batchfail" && eqInts(got.Vs, cur[:n])
 	case "pickup":
 		if !present {
 			return s, got.Kind == "err"
@@ -738,6 +774,8 @@ func coqInbox(_ Case, h []Ev, w []int) string {
 			op = fmt.Sprintf("IAdd %d %d", e.Op.U, e.Op.M)
 		case "status":
 			op = fmt.Sprintf("IStatus %d", e.Op.U)
+		case "pickupf":
+			op = fmt.Sprintf("IPickupFail %d %d%%nat", e.Op.U, e.Op.N)
 		default:
 			op = fmt.Sprintf("IPickup %d %d%%nat", e.Op.U, e.Op.N)
 		}
@@ -751,6 +789,8 @@ func coqInbox(_ Case, h []Ev, w []int) string {
 			out = fmt.Sprintf("ICount %d%%nat", e.Out.V)
 		case "batch":
 			out = "IBatch " + coqNs(e.Out.Vs)
+		case "batchfail":
+			out = "IBatchFail " + coqNs(e.Out.Vs)
 		}
 
 		items[i] = hrec(op, out, e)
@@ -776,6 +816,8 @@ func genInbox(r *hx.Rng, c *Case, g, n int) {
 				c.Threads[t] = append(c.Threads[t], Op{Kind: "add", U: d, M: msg})
 			case x < 7:
 				c.Threads[t] = append(c.Threads[t], Op{Kind: "status", U: d})
+			case x < 8:
+				c.Threads[t] = append(c.Threads[t], Op{Kind: "pickupf", U: d, N: 1 + r.Intn(3)})
 			default:
 				c.Threads[t] = append(c.Threads[t], Op{Kind: "pickup", U: d, N: 1 + r.Intn(3)})
 			}
